@@ -34,11 +34,13 @@ type gspec struct {
 	Twins  bool       `json:"twins,omitempty"` // every task dependency is preceded by a FILE dependency of the same spelling
 	Family string     `json:"family,omitempty"`
 	// exploration parameters
-	ReqMaxLen  int  `json:"req_max_len"`
-	ReqRepeat  bool `json:"req_repeat"`
-	ReqUndef   bool `json:"req_undef,omitempty"` // also request the undefined name "zz"
-	OrderBound int  `json:"order_bound"`         // -1 = all iteration orders
-	Failing    bool `json:"failing,omitempty"`   // additionally every single failing task
+	ReqMaxLen   int  `json:"req_max_len"`
+	ReqRepeat   bool `json:"req_repeat"`
+	ReqUndef    bool `json:"req_undef,omitempty"`     // also request the undefined name "zz"
+	OrderBound  int  `json:"order_bound"`             // -1 = all iteration orders
+	Failing     bool `json:"failing,omitempty"`       // additionally every single failing task
+	ReqOnlyLast bool `json:"req_only_last,omitempty"` // the only request is the last task
+	ReqCase     bool `json:"req_case,omitempty"`      // also request each name in another letter case (undefined: names are case-sensitive)
 }
 
 var vnames = []string{"ta", "tb", "tc", "td", "te", "tf", "tg", "th"}
@@ -86,6 +88,12 @@ func c03Specs(tier string) []gspec {
 		}
 		g := maskGraph(2, m)
 		g.ReqMaxLen, g.ReqRepeat, g.OrderBound, g.ReqUndef, g.Family = 2, false, -1, true, "undefined-request"
+		out = append(out, g)
+	}
+	// a request that differs from a defined name only in letter case names an undefined task
+	for m := uint32(0); m < 1<<9; m++ {
+		g := maskGraph(3, m)
+		g.ReqMaxLen, g.ReqRepeat, g.OrderBound, g.ReqCase, g.Family = 2, false, 1, true, "request-in-another-letter-case"
 		out = append(out, g)
 	}
 	// variables named like the tasks (and like the undefined name)
@@ -180,6 +188,19 @@ func c03Specs(tier string) []gspec {
 		}
 		fam(fmt.Sprintf("diamonds-%d", n), n, dia)
 	}
+	// a chain far deeper than any recursion or depth guard is likely to allow for: request the far end
+	{
+		n := 100
+		names := make([]string, n)
+		for i := range names {
+			names[i] = fmt.Sprintf("t%c%c", 'a'+i/26, 'a'+i%26)
+		}
+		g := gspec{Names: names, Deps: make([][]string, n), Family: "chain-100", ReqMaxLen: 1, OrderBound: 0, ReqOnlyLast: true}
+		for i := 1; i < n; i++ {
+			g.Deps[i] = []string{names[i-1]}
+		}
+		out = append(out, g)
+	}
 	if tier == "thorough" {
 		for m := uint32(0); m < 1<<16; m++ {
 			g := maskGraph(4, m)
@@ -221,9 +242,17 @@ func (g gspec) text() string {
 }
 
 func (g gspec) requests() [][]string {
+	if g.ReqOnlyLast {
+		return [][]string{{g.Names[len(g.Names)-1]}}
+	}
 	names := append([]string{}, g.Names...)
 	if g.ReqUndef {
 		names = append(names, "zz")
+	}
+	if g.ReqCase {
+		for _, n := range g.Names {
+			names = append(names, strings.ToUpper(n), strings.ToUpper(n[:1])+n[1:])
+		}
 	}
 	var out [][]string
 	var rec func(cur []string)
